@@ -306,8 +306,13 @@ func parseEntryDirective(e *HarnessEntry, s string) error {
 		case "float":
 			e.Float = v
 		case "preempt":
-			n, _ := strconv.Atoi(v)
-			e.Preempt = n
+			// preempt=N or preempt=Nquick,Nthorough
+			q, t, two := strings.Cut(v, ",")
+			n, _ := strconv.Atoi(q)
+			e.Preempt, e.PreemptThorough = n, n
+			if two {
+				e.PreemptThorough, _ = strconv.Atoi(t)
+			}
 		case "recycle":
 			n, _ := strconv.Atoi(v)
 			e.Recycle = n
@@ -386,6 +391,7 @@ func runCheck(prop, tier string, nWorkers int, solverName, only, repo string, bu
 		nWorkers: nWorkers, solverName: solverName, timeoutMs: 30000, covers: map[string]bool{}, nondetInfo: map[string]*NondetInfo{},
 		notes: map[string]bool{}, known: loadKnown(), knownHit: map[string]bool{}}
 	d.cond = sync.NewCond(&d.mu)
+	d.preemptOverride, _ = strconv.Atoi(os.Getenv("VERIF_PREEMPT"))
 	if ms, err := strconv.Atoi(os.Getenv("VERIF_QTIMEOUT_MS")); err == nil && ms > 0 {
 		d.timeoutMs = ms // testing aid: a tiny per-query timeout exercises the fresh-solver retry path
 	}
@@ -574,6 +580,16 @@ func runCheck(prop, tier string, nWorkers int, solverName, only, repo string, bu
 	}
 	fmt.Fprintf(os.Stderr, "gosym: %s %s: %s; paths=%d instr=%d assertions=%d (symbolic %d) queries=%d (unknown %d, retried %d) solver=%.1fs load=%.1fs wall=%.1fs\n",
 		prop, tier, verdict, d.states, d.transitions, d.asserts, d.assertsSym, d.queries, d.qUnknown, d.qRetried, d.solverTime.Seconds(), loadT.Seconds(), time.Since(t0).Seconds())
+	if outcomeLog {
+		var ks []string
+		for k := range d.outcomes {
+			ks = append(ks, k)
+		}
+		sort.Strings(ks)
+		for _, k := range ks {
+			fmt.Fprintf(os.Stderr, "OUTCOME %s\n", k)
+		}
+	}
 	if exit == 2 {
 		fmt.Printf("INCONCLUSIVE property=%s reason=%q\n", prop, verdict)
 		for i, m := range d.inconclusive {
